@@ -210,9 +210,13 @@ class Index(_Gap):
     def astype(self, t):
         return Index(self.to_series().astype(t).vals, self.present, self.name, np.dtype(t) if not isinstance(t, np.dtype) else t)
 
+    @property
+    def array(self):
+        return self
+
 
 class MultiIndex(Index):
-    def __init__(self, levels, names, present=None):
+    def __init__(self, levels, names, present=None, dtypes=None):
         self.levels = [[z3.IntVal(l) if isinstance(l, (int, np.integer)) else l for l in lv] for lv in levels]
         self._names = list(names)
         n = len(self.levels[0])
@@ -220,12 +224,13 @@ class MultiIndex(Index):
         self.labels = [None] * n
         self.name = None
         self.dtype = np.dtype(object)
+        self.dtypes = list(dtypes) if dtypes is not None else [np.dtype("int64")] * len(self.levels)
 
     def copy(self):
-        return MultiIndex(self.levels, self._names, self.present)
+        return MultiIndex(self.levels, self._names, self.present, self.dtypes)
 
     def with_present(self, present):
-        return MultiIndex(self.levels, self._names, present)
+        return MultiIndex(self.levels, self._names, present, self.dtypes)
 
     @property
     def names(self):
@@ -236,10 +241,18 @@ class MultiIndex(Index):
         return len(self.levels)
 
     def get_level_values(self, i):
-        return Index(self.levels[i], self.present, self._names[i])
+        return Index(self.levels[i], self.present, self._names[i], self.dtypes[i])
+
+    def to_frame(self, allow_duplicates=False, index=True):
+        cols = [(nm if nm is not None else i, Series(lv, present=self.present, dtype=dt, index=self.copy()))
+                for i, (nm, lv, dt) in enumerate(zip(self._names, self.levels, self.dtypes))]
+        return DataFrame(cols, present=self.present, index=self.copy())
 
     def equals(self, other):
-        raise ModelGap("MultiIndex.equals")
+        if not isinstance(other, MultiIndex) or len(other.levels) != len(self.levels) or len(other.present) != len(self.present):
+            return False
+        return sb(zand(z3.And(p == q, z3.Implies(p, zand(a[i] == b[i] for a, b in zip(self.levels, other.levels))))
+                       for i, (p, q) in enumerate(zip(self.present, other.present))))
 
 
 class BoolArray(_Gap):
@@ -373,6 +386,8 @@ class Series(_Gap):
                 return self._new()
             raise ModelGap("astype(bool) on non-bool")
         if t is str:
+            if self.kind == "object" and any(isinstance(x, tuple) for x in self.vals):
+                return self._new()  # rendered row labels: the tuple of level terms stands for its own text
             return StrPlaceholderSeries()
         try:
             dt = np.dtype(t)
@@ -744,6 +759,13 @@ class DataFrame(_Gap):
     def unstack(self):
         return _Unstacked(self)
 
+    def apply(self, fn, axis=0):
+        if fn is tuple and axis in (1, "columns"):
+            n = len(self.present)
+            rows = [tuple(wrap_cell(c.vals[i], c.kind) for _, c in self._cols) for i in range(n)]
+            return Series(rows, present=self.present, index=self.index.copy(), kind="object", dtype=np.dtype(object))
+        raise ModelGap("DataFrame.apply")
+
     def assign(self, **kw):
         new = self.copy()
         n = len(self.present)
@@ -872,8 +894,15 @@ class PdProxy:
             return isinstance(obj, (real_pd.MultiIndex, MultiIndex))
 
     class MultiIndex(metaclass=_MIdxMeta):
-        from_arrays = staticmethod(real_pd.MultiIndex.from_arrays)
         from_tuples = staticmethod(real_pd.MultiIndex.from_tuples)
+
+        @staticmethod
+        def from_arrays(arrays, names=None, **kw):
+            arrays = list(arrays)
+            if arrays and all(isinstance(a, Index) for a in arrays):
+                return MultiIndex([a.labels for a in arrays], list(names) if names is not None else [a.name for a in arrays], arrays[0].present,
+                                  [a.dtype for a in arrays])
+            return real_pd.MultiIndex.from_arrays(arrays, names=names, **kw)
 
     class _SerMeta(type):
         def __instancecheck__(cls, obj):
